@@ -24,22 +24,23 @@ type checker struct {
 	exit     int
 	lines    []string
 
-	violationsTotal int
-	knownHits       map[string]int
-	newKeys         map[string]*foundViolation
-	crossChecked    int
-	crossMismatch   int
-	traceNote       []string
-	minimiseRuns    int
-	batteryChecked  int
-	raceEv          *raceEvidence
-	deaths          int
-	agg             *agg
-	runsDone        int
-	curPrior        map[int][]int
-	raceReplays     int
-	freshChecked    int
-	unreproduced    []string
+	violationsTotal   int
+	knownHits         map[string]int
+	newKeys           map[string]*foundViolation
+	crossChecked      int
+	crossMismatch     int
+	traceNote         []string
+	minimiseRuns      int
+	batteryChecked    int
+	unobservedChecked int
+	raceEv            *raceEvidence
+	deaths            int
+	agg               *agg
+	runsDone          int
+	curPrior          map[int][]int
+	raceReplays       int
+	freshChecked      int
+	unreproduced      []string
 }
 
 type foundViolation struct {
@@ -49,6 +50,8 @@ type foundViolation struct {
 	count int
 	prior []int
 	race  *raceFound
+	// observed (proxied) vs unobserved node: the replay's second node runs without proxies
+	unobserved bool
 }
 
 type finding struct {
@@ -213,6 +216,20 @@ func (c *checker) run() int {
 			c.agg.absorbExtra(f)
 			c.freshChecked += len(f.results)
 		}
+		if c.prop == "C07" {
+			// unobserved pass: some plans again in nodes WITHOUT the forwarding proxies around the
+			// registered objects. Code that looks at the concrete type of a registered bias /
+			// listener / method behaves there as in the shipped binary; the answers must be the
+			// observed node's answers (and every valid combination must still be answered)
+			var un []int
+			for i := lo; i < hi; i += 40 {
+				un = append(un, i)
+			}
+			u := runBatchV(c.prop, c.seed, c.tier, un, workers, []int{4, 1, 16}, "u", false)
+			c.collect(u)
+			c.compareUnobserved(a, u)
+			c.agg.absorbExtra(u)
+		}
 		if c.prop == "C10" && lo == 0 {
 			c.raceHalf(a)
 		}
@@ -312,6 +329,49 @@ func (c *checker) crossCompare(a, b *runOutcome) {
 				c.noteCross(v, i, a)
 			} else {
 				c.traceNote = append(c.traceNote, fmt.Sprintf("plan %d op %s differs across processes (%s vs %s)", i, id, va, vb))
+			}
+			break
+		}
+	}
+}
+
+// compareUnobserved: the same plans in an observed (pass A) and an unobserved node.
+func (c *checker) compareUnobserved(a, u *runOutcome) {
+	var idx []int
+	for i := range u.results {
+		idx = append(idx, i)
+	}
+	sort.Ints(idx)
+	for _, i := range idx {
+		ra, ru := a.results[i], u.results[i]
+		if ra == nil || ru == nil {
+			continue
+		}
+		c.unobservedChecked++
+		da, du := digestsByID(ra.OpDigests), digestsByID(ru.OpDigests)
+		var ids []string
+		for id := range du {
+			ids = append(ids, id)
+		}
+		sort.Strings(ids)
+		for _, id := range ids {
+			va, ok := da[id]
+			vu := du[id]
+			if !ok || va == vu {
+				continue
+			}
+			ca, cu := classOf(id+"="+va), classOf(id+"="+vu)
+			if ca == cu && ca != "ok" {
+				continue
+			}
+			v := Violation{Property: c.prop, Oracle: "differs-when-unobserved", Op: id,
+				Key:    c.prop + "|differs-when-unobserved",
+				Detail: fmt.Sprintf("plan %d: operation %s is answered %s while the registered biases / listeners / methods are wrapped by forwarding proxies and %s when they are the objects main.go registered: the code looks at the concrete type of a registered object, and the real service does not do what the per-step monitors saw (a bias does not work on the data the previous entry left, or is applied at another position)", i, id, va, vu)}
+			c.violationsTotal++
+			if fv, ok := c.newKeys[v.Key]; ok {
+				fv.count++
+			} else {
+				c.newKeys[v.Key] = &foundViolation{v: v, plan: nil, index: i, count: 1, prior: nil, unobserved: true}
 			}
 			break
 		}
@@ -606,6 +666,15 @@ func (c *checker) makeReplay(fv *foundViolation) string {
 	if fv.plan == nil {
 		// cross-process difference: the replay is the plan run in two fresh nodes
 		plan := GenPlan(c.prop, c.seed, fv.index, c.tier)
+		if fv.unobserved {
+			rp := &Replay{Property: c.prop, Mode: "cross", Plans: []*Plan{plan}, Alone: plan, AloneUnobserved: true, Expected: &fv.v,
+				Note: "`plans` run in an observed node (forwarding proxies around the registered objects), `alone` in a node without them"}
+			if ok, _ := replayReproduces(rp); !ok {
+				c.notReproduced(fv, fmt.Sprintf("observed / unobserved difference for plan %d did not reproduce; detail: %s", fv.index, clip(fv.v.Detail, 300)))
+				return ""
+			}
+			return c.writeReplay(rp, fv)
+		}
 		rp := &Replay{Property: c.prop, Mode: "cross", Plans: []*Plan{plan}, Alone: Variant(plan), Expected: &fv.v}
 		if ok, _ := replayReproduces(rp); !ok {
 			// it needs the history of the node that ran it: the plans that node executed before
@@ -700,7 +769,11 @@ func replayReproduces(rp *Replay) (bool, *Violation) {
 			alone = rp.Plans[len(rp.Plans)-1]
 		}
 		r1, d1, _ := runPlansFresh(rp.Plans, 1)
-		r2, d2, _ := runPlansFresh([]*Plan{alone}, 16)
+		var env2 []string
+		if rp.AloneUnobserved {
+			env2 = []string{"DST_NOPROXY=1"}
+		}
+		r2, d2, _ := runPlansFreshEnv([]*Plan{alone}, 16, env2)
 		if d1 || d2 || len(r1) == 0 || len(r2) == 0 {
 			return false, nil
 		}
